@@ -2195,6 +2195,25 @@ class SQLModel:
             if subsql_add_query_name
             else None,
         )
+        if is_union:
+            # a member of a UNION can not carry its own ORDER BY / LIMIT:
+            # such a member is wrapped as a derived table
+            def _wrap_ordered_member(container, lines):
+                member_suffix = getattr(container.near_sql, "suffix", None)
+                if (
+                    container.near_sql.is_table
+                    or (member_suffix is None)
+                    or (len(member_suffix) < 1)
+                ):
+                    return lines
+                return (
+                    ["SELECT * FROM ("]
+                    + [sql_format_options.sql_indent + si for si in lines]
+                    + [") " + container.near_sql.quoted_query_name]
+                )
+
+            substr_1 = _wrap_ordered_member(near_sql.sub_sql1, substr_1)
+            substr_2 = _wrap_ordered_member(near_sql.sub_sql2, substr_2)
         sql = (
             [sql_start]
             + self._indent_and_sep_terms(
